@@ -23,7 +23,7 @@ Keys are lower-case hex, the empty key is `-`; a pair is `<hexkey>:<value>`.
   pinit <pair> ...            (a pooled trie object that holds another dictionary)
   pload full|t<m>|f<pos>:<byte>   (UnmarshalBinary INTO that object: the image, a truncation, a byte flip)
   blikepat <pattern>          (like dispatch of indexKVStore.FindValuesByLike)
-  bget <key> | bvalues | bpairs | bsuggest <key> <limit> | blike <prefix> <pre|suf|has> <sub> | bmerge <blockSize>
+  bsplit <blockSize> <n> | bget <key> | bvalues | bpairs | bsuggest <key> <limit> | blike <prefix> <pre|suf|has> <sub> | bmerge <blockSize>
 -/
 import LinVerif.Util.Proto
 import LinVerif.Model.Louds
@@ -378,9 +378,20 @@ def step (st : St) (ws : List String) : St × String :=
       if blockSize = 0 then (st, "bad-op") else
       -- `rest` starts with "|": the first group is empty
       let groups := groups.filter (fun g => !g.isEmpty)
-      match buildAll (groups.flatMap (fun g => writeBlocks blockSize g)) with
+      -- every flush goes through `TrieBucketBuilder.Write`'s own arithmetic (`writeBlocksGo`: block count,
+      -- slice bounds; = `writeBlocks` by `builder_blocks_partition`)
+      match (groups.mapM (fun g => writeBlocksGo blockSize g)).bind (fun bl => buildAll bl.flatten) with
       | some ts => ({ st with bucket := some ts, blockSize := blockSize }, s!"ok tries={ts.length}")
       | none => ({ st with bucket := none }, "panic")
+    | _, _ => (st, "bad-op")
+  | ["bsplit", bsz, n] =>
+    -- sizes of the blocks `TrieBucketBuilder(blockSize).Write` cuts n (sorted) keys into, in written order
+    match bsz.toNat?, n.toNat? with
+    | some blockSize, some n =>
+      if blockSize = 0 then (st, "panic") else
+      match blocksLoop blockSize (List.replicate n ([], 0)) (numBlocksGo n blockSize) 0 with
+      | some bl => (st, showNats (bl.map List.length))
+      | none => (st, "panic")
     | _, _ => (st, "bad-op")
   | ["bget", k] =>
     match parseKey k with
